@@ -28,6 +28,89 @@ fn hexs(b: &[u8]) -> String {
     b.iter().map(|x| format!("{:02x}", x)).collect()
 }
 
+fn dump_str(s: &str) -> String {
+    let cps: Vec<String> = s.chars().map(|c| format!("{:x}", c as u32)).collect();
+    format!("S{}:{}", cps.len(), cps.join(","))
+}
+
+fn dump_value(v: &humphrey_json::Value) -> String {
+    use humphrey_json::Value;
+    match v {
+        Value::Null => "n".to_string(),
+        Value::Bool(true) => "t".to_string(),
+        Value::Bool(false) => "f".to_string(),
+        Value::Number(x) => format!("N{:016x}", x.to_bits()),
+        Value::String(s) => dump_str(s),
+        Value::Array(a) => format!("A[{}]", a.iter().map(dump_value).collect::<Vec<_>>().join(";")),
+        Value::Object(o) => format!("O{{{}}}", o.iter().map(|(k, v)| format!("{}={}", dump_str(k), dump_value(v))).collect::<Vec<_>>().join(";")),
+    }
+}
+
+fn undump_str(b: &[u8], pos: &mut usize) -> String {
+    assert!(b[*pos] == b'S');
+    *pos += 1;
+    let mut n = 0usize;
+    while b[*pos] != b':' {
+        n = n * 10 + (b[*pos] - b'0') as usize;
+        *pos += 1;
+    }
+    *pos += 1;
+    let mut out = String::new();
+    for i in 0..n {
+        let mut cp = 0u32;
+        while *pos < b.len() && (b[*pos] as char).is_ascii_hexdigit() {
+            cp = cp * 16 + (b[*pos] as char).to_digit(16).unwrap();
+            *pos += 1;
+        }
+        out.push(char::from_u32(cp).unwrap());
+        if i + 1 < n {
+            assert!(b[*pos] == b',');
+            *pos += 1;
+        }
+    }
+    out
+}
+
+fn undump_value(b: &[u8], pos: &mut usize) -> humphrey_json::Value {
+    use humphrey_json::Value;
+    match b[*pos] {
+        b'n' => { *pos += 1; Value::Null }
+        b't' => { *pos += 1; Value::Bool(true) }
+        b'f' => { *pos += 1; Value::Bool(false) }
+        b'N' => {
+            let h = std::str::from_utf8(&b[*pos + 1..*pos + 17]).unwrap();
+            *pos += 17;
+            Value::Number(f64::from_bits(u64::from_str_radix(h, 16).unwrap()))
+        }
+        b'S' => Value::String(undump_str(b, pos)),
+        b'A' => {
+            *pos += 2;
+            let mut items = Vec::new();
+            while b[*pos] != b']' {
+                items.push(undump_value(b, pos));
+                if b[*pos] == b';' { *pos += 1; }
+            }
+            *pos += 1;
+            Value::Array(items)
+        }
+        b'O' => {
+            *pos += 2;
+            let mut items = Vec::new();
+            while b[*pos] != b'}' {
+                let k = undump_str(b, pos);
+                assert!(b[*pos] == b'=');
+                *pos += 1;
+                let v = undump_value(b, pos);
+                items.push((k, v));
+                if b[*pos] == b';' { *pos += 1; }
+            }
+            *pos += 1;
+            Value::Object(items)
+        }
+        _ => panic!("bad dump"),
+    }
+}
+
 fn main() {
     std::panic::set_hook(Box::new(|_| {}));
     let stdin = std::io::stdin();
@@ -340,6 +423,53 @@ fn main() {
                 });
                 match r {
                     Ok(s) => println!("{}", s),
+                    Err(_) => println!("PANIC"),
+                }
+            }
+            // pctenc <hex bytes> -> hex of the percent-encoded text | PANIC
+            "pctenc" => {
+                use humphrey::percent::PercentEncode;
+                let b = unhex(parts[1]);
+                match std::panic::catch_unwind(|| b.percent_encode()) {
+                    Ok(s) => println!("{}", hexs(s.as_bytes())),
+                    Err(_) => println!("PANIC"),
+                }
+            }
+            // pctdec <hex utf8 text> -> SOME <hex> | NONE | PANIC
+            "pctdec" => {
+                use humphrey::percent::PercentDecode;
+                let t = String::from_utf8(unhex(parts[1])).unwrap();
+                match std::panic::catch_unwind(|| t.percent_decode()) {
+                    Ok(Some(v)) => println!("SOME {}", hexs(&v)),
+                    Ok(None) => println!("NONE"),
+                    Err(_) => println!("PANIC"),
+                }
+            }
+            // jsonv <hex utf8 text> -> OK <canonical dump of the Value> | ERR | PANIC
+            //   dump: n | t | f | N<f64 bits hex> | S<len>:<code points hex, comma separated> | A[..,..] | O{S..=v,..}
+            "jsonv" => {
+                let text = String::from_utf8(unhex(parts[1])).unwrap();
+                let r = std::panic::catch_unwind(|| humphrey_json::Value::parse(&text).ok().map(|v| dump_value(&v)));
+                match r {
+                    Ok(Some(d)) => println!("OK {}", d),
+                    Ok(None) => println!("ERR"),
+                    Err(_) => println!("PANIC"),
+                }
+            }
+            // jsonser <indent|-> <dump> -> hex utf8 of serialize()/serialize_pretty(indent) of the value described by <dump> | PANIC
+            "jsonser" => {
+                let dump = parts[2].to_string();
+                let indent: Option<usize> = if parts[1] == "-" { None } else { Some(parts[1].parse().unwrap()) };
+                let r = std::panic::catch_unwind(move || {
+                    let mut pos = 0usize;
+                    let v = undump_value(dump.as_bytes(), &mut pos);
+                    match indent {
+                        None => v.serialize(),
+                        Some(i) => v.serialize_pretty(i),
+                    }
+                });
+                match r {
+                    Ok(s) => println!("{}", hexs(s.as_bytes())),
                     Err(_) => println!("PANIC"),
                 }
             }
